@@ -2,7 +2,7 @@
 kind, anydata / anyxml content, nodes of an augmenting module (namespace / module-name changes), 64-bit / decimal64 / bits /
 binary / union / empty values, RPC / action / notification trees.  Python is the independent encoder (XML and RFC 7951/7952
 JSON); libyang's output is read back by expat / json and compared *structurally with the independent encoding*."""
-import json
+import json, re
 from vlib import paths, gen
 from vlib.proto import hexs, unhex
 from checks import rtcomp
@@ -348,6 +348,56 @@ def gen_opaq(rng):
     return b"".join(elem(0, {}, None) for _ in range(rng.choice([1, 1, 2])))
 
 
+# hand-made documents for the paths of xml_print_ns the opaque model covers: a suggestion that is bound further out (numbered
+# prefix), a prefix reused from an ancestor although a value of the same element needs it for another namespace (reserved), the
+# numbered candidate itself taken, the same namespace under two prefixes with the first one re-bound in between (shadow check)
+OPAQ_HAND = [
+    b'<config xmlns="urn:o1" xmlns:nc="urn:N1" nc:operation="nc:merge"><server xmlns:nc="urn:N2" nc:tag="nc:blue">'
+    b'<port xmlns:xc="urn:N1" xc:operation="delete" a="1">xc:t</port></server></config>',
+    b'<a xmlns="urn:o1" xmlns:p="urn:N1" p:x="1"><b xmlns:q="urn:N1" xmlns:p="urn:N2" q:y="2" z="p:v"/></a>',
+    b'<a xmlns="urn:o1" xmlns:p="urn:N1" xmlns:p1="urn:N3" p:x="1" p1:y="2"><b xmlns:p="urn:N2" p:z="3"><c xmlns:p="urn:N4" p:w="p1:k"/></b></a>',
+    b'<a xmlns="urn:o1" xmlns:p="urn:N1" p:x="p:v"><b xmlns:q="urn:N1" q:x="1" xmlns:p="urn:N2">p:t</b><c xmlns="urn:o2" xmlns:q="urn:N1" q:y=""/></a>',
+    b'<p:a xmlns:p="urn:o1" p:x="1"><p:b p:y="p:z"><c xmlns="urn:o2" xmlns:r="urn:o1" r:k="2">t</c></p:b></p:a>',
+]
+OPAQ_OUT_OF_FRAGMENT = [
+    ("json", b'{"unk:x":{"y":1,"@y":{"rtx3:a":"1"}}}'),
+    ("json", b'{"unk:x":[{"k":"a b"},{"k":null}]}'),
+    ("xml", b'<top xmlns="urn:verif:rtx1"><s>v</s><zz xmlns="urn:o9" xmlns:p="urn:N1" p:a="1"/></top>'),
+]
+
+
+def model_opaq_print(cx, views, ri):
+    """the Lean model of the opaque-node part of the XML printer (LyModel/XmlTree/Ns2.lean, Opaq.lean; the variant of xml_print_ns
+    the translator found in the source) applied to the view libyang reports of its tree must give libyang's shrunk output byte
+    for byte"""
+    reqs, meta = [], []
+    for i, (fmt, d) in views.items():
+        r = ri.get(str(i), ["err", "NoReply"])
+        if r[0] != "ok" or len(r) < 3:
+            cx.count(None, False, "rtx:opaq-model:not parsed (%s)" % " ".join(r[:2]))
+            continue
+        meta.append((d, unhex(r[1]), r[2]))
+        reqs.append("%d xmltree opaqprint %s" % (len(reqs), r[2]))
+    if not reqs:
+        return
+    rm = cx.run_model(reqs)
+    nattr = nout = 0
+    for k, (d, px, view) in enumerate(meta):
+        r = rm.get(str(k), ["err", "NoReply"])
+        if r[:2] == ["err", "Unsupported"]:
+            nout += 1
+            cx.count(None, False, "rtx:opaq-model:out-of-fragment (data nodes or JSON-format opaque nodes in the view)")
+            continue
+        v = unhex(view)
+        nattr += v.count(b"\nA ")
+        cx.count(("opaqview", view), True, "rtx:opaq-model:%s:numbered=%d" % (r[0], 1 if re.search(rb"xmlns:[a-z]+[0-9]+=", px) else 0))
+        if r[0] != "ok" or unhex(r[1]) != px:
+            cx.disagree("rtx-opaq-model", reqs[k][:6000], ["ok", hexs(px)[:3000]], [r[0], (r[1] if len(r) > 1 else "")[:3000]])
+    cx.rule("opaq-model: %d views of opaque forests (%d attribute lines) printed by the Lean model of xml_print_ns/xml_print_attr/"
+            "xml_print_opaq = libyang's shrunk XML, byte for byte; %d more views are outside the model's fragment (data nodes, JSON-format "
+            "opaque nodes) and only counted" % (len(meta) - nout, nattr, nout))
+
+
 def run_opaq(cx):
     """what an XML document of opaque nodes says to a namespace-aware reader (expanded element names, expanded attribute names,
     attribute values, character data) must be what libyang's output of the parsed tree says - also when printed a second time"""
@@ -362,12 +412,21 @@ def run_opaq(cx):
         d = gen_opaq(rng)
         docs[len(lines)] = d
         lines.append("%d rt opaq %s" % (len(lines), hexs(d)))
+    # (K) the printer's view of the same documents, for the Lean model of xml_print_ns / xml_print_attr / xml_print_opaq (v2)
+    views = {}
+    for d in list(docs.values()) + OPAQ_HAND:
+        views[len(lines)] = ("xml", d)
+        lines.append("%d rt opaqview xml %s" % (len(lines), hexs(d)))
+    for d in OPAQ_OUT_OF_FRAGMENT:
+        views[len(lines)] = d
+        lines.append("%d rt opaqview %s %s" % (len(lines), d[0], hexs(d[1])))
     head, body = lines[0], lines[1:]
     chunked = []
     for i in range(0, len(body), 400):
         chunked.append(head if i == 0 else "c%d rt ctx %s" % (i, head.split(" ", 3)[3]))
         chunked += body[i:i + 400]
     ri = rtcomp.run_batched(cx, chunked, "rtx", per_batch=1)
+    model_opaq_print(cx, views, ri)
     for i, d in docs.items():
         r = ri.get(str(i), ["err", "NoReply"])
         want = rtcomp.expat_structure(d, "auto")
